@@ -278,6 +278,7 @@ pub fn run_case(name: &str, opname: &str, front: &str, rep: &mut Report) -> Vec<
         }
         return bad;
     }
+    let populate_calls = out.as_ref().map(|o| o.populate_calls).unwrap_or(0);
     let res = match out {
         Ok(o) => o.res,
         Err(p) => Res::Panic(p),
@@ -300,6 +301,16 @@ pub fn run_case(name: &str, opname: &str, front: &str, rep: &mut Report) -> Vec<
         }
         if !delta.is_empty() {
             bad.push(("reserved-modified".into(), format!("rejected name still modified: {:?}", delta)));
+        }
+        // "modify nothing" also covers what is created and removed again before the call returns (a temporary file
+        // populated for a key that does not exist, directories): no mutating call at all outside the application's
+        // own source file, and the populate callback is never run for such a name
+        let app = dirs.app_tmp.to_string_lossy().into_owned();
+        if let Some(e) = trace.iter().find(|e| is_mutating(e) && e.ok() && !e.path.as_ref().map(|p| p.starts_with(&app)).unwrap_or(false)) {
+            bad.push(("reserved-modified".into(), format!("rejected name, yet the call issued {} on {:?}", e.func, e.path.as_deref().unwrap_or("").replace(sc.root.to_str().unwrap_or(""), ""))));
+        }
+        if populate_calls != 0 {
+            bad.push(("reserved-modified".into(), format!("rejected name, yet populate was called {} times", populate_calls)));
         }
     } else if is_err {
         if !delta.is_empty() {
